@@ -39,6 +39,10 @@ logging.raiseExceptions = False
 logging.disable(logging.CRITICAL)
 
 PROPERTY = "C20"
+# The YAML runner (like every pytest-based tool) states its verdicts with `assert`: under
+# `python -O` every test passes, which is how Python and pytest are documented to behave, not
+# a defect of the runner.  C20's lanes therefore all run with assertions enabled.
+NO_OPTIMIZE = True
 LEVEL = "exploration"
 HASH_FREE = False
 RULE = (
